@@ -1,26 +1,52 @@
 (** C01 — Write→read round trip preserves every tile, the metadata and header settings.
 
     [tiles] is the archive's logical content: the (id, content) list sorted by id ([logical]).
-    Proved, for every archive value satisfying the store invariant, every JSON-object metadata (canonical
-    bytes [p_meta]), every header setting and every supported internal compression:
-    - [C01_roundtrip_fits]: if the directory fits the root directory (no leaf spill), [to_bytes] succeeds and
-      opening the written bytes yields byte-identical content for every tile, 'no such tile' for every
-      other id, equal metadata, equal tile type / compressions / zooms, and each coordinate as
-      [quantize_coord] = degrees of the stored i32 (C09 relates it to the nearest multiple of 1e-7);
-    - [C01_roundtrip_spill]: if it does not fit and the write succeeds, the written image has one level of
-      leaf directories ([C01_spill_layout]) and opening it yields the same;
-    - [C01_roundtrip_partial]: both cases in one statement — whenever [to_bytes] returns an image, opening it
-      gives the content back.
-    Premises: no hash collision among the contents; contents of 1 .. 2^32-1 bytes; ids below 2^63 (all
-    valid tile ids are); fewer than 2^32-1 tiles; total size below 2^64; every leaf directory below 4 GiB
-    (its length is a u32); codec inverse law; the encoder never returns an empty stream for non-empty input.
-    Missing for the full statement: in the leaf-spill case the success of the write (termination of the
-    doubling loop with a root that fits, C06's open part) is a premise, not a conclusion — the
-    correspondence run and the direct oracle cover it on archives of 4 500 … 50 000 tiles in all codecs. *)
+    [C01_roundtrip] is the property: for every archive value satisfying the store invariant, every JSON-object
+    metadata (canonical bytes [p_meta]), every header setting, every supported internal compression and both
+    API families, [to_bytes] SUCCEEDS and opening the written bytes yields byte-identical content for every
+    tile, 'no such tile' for every other id, equal metadata, equal tile type / compressions / zooms, and each
+    coordinate as [quantize_coord] = degrees of the stored i32 (C09 relates it to the nearest multiple of
+    1e-7) — whether the directory fits the root ([C01_roundtrip_fits], image [C01_layout]) or is spilled into
+    leaf directories ([C01_roundtrip_spill], image [C01_spill_layout]); [C01_roundtrip_any_image] states the
+    reading half for whatever image the writer returns.
+    Premises (all of them limits of the format or laws of the external libraries, none about the code's
+    control flow): no hash collision among the contents; contents of 1 .. 2^32-1 bytes; ids below 2^63 (all
+    valid tile ids are); fewer than 2^32-1 tiles; sections below 2^64 bytes in total; every leaf directory
+    1 .. 2^32-1 bytes ([blobs_fit]: its length is a u32); codec laws [codec_inv] (decompress after compress is
+    the identity) and [codec_size] (output at most 2 n + 1024 bytes), both exercised on the real codecs by the
+    C14 run; the encoder never returns an empty stream for non-empty input. *)
 Require Import PM.Base PM.Oracles PM.Params PM.Float PM.Header PM.HeaderProofs PM.Directory PM.Stream PM.TileManager PM.TileManagerProofs
-               PM.DirWriter PM.DirReader PM.Archive PM.FinishSpec PM.FinishProofs PM.SpillSpec PM.SpillProofs PM.RoundTripProofs PM.SpillRoundTrip.
+               PM.DirWriter PM.DirReader PM.Archive PM.FinishSpec PM.FinishProofs PM.SpillSpec PM.SpillProofs PM.RoundTripProofs PM.SpillRoundTrip PM.TotalityProofs.
 From Coq Require Import Sorting.Sorted.
 Open Scope N_scope.
+
+Theorem C01_roundtrip : forall cx, codec_inv cx -> codec_size cx -> forall asy p tiles U,
+  Inv cx (p_tm p) -> logical (p_tm p) = Ok tiles ->
+  hash_inj_on cx U -> (forall c, In c U -> nlen c < two32) ->
+  Forall (fun t => In (snd t) U /\ fst t < two63 /\ 1 <= nlen (snd t)) tiles -> nlen tiles + 1 < two32 ->
+  StronglySorted (fun a b => fst a < fst b) tiles ->
+  p_icomp p <> CUnknown -> p_meta p <> [] -> json_parse cx (p_meta p) = Ok (Some (p_meta p)) ->
+  (forall b z, b <> [] -> compress cx asy (p_icomp p) b = Ok z -> z <> []) ->
+  p_minz p < 256 -> p_maxz p < 256 -> p_cz p < 256 ->
+  blobs_fit cx (p_icomp p) (fr_dir (spec_finish tiles)) ->
+  (forall mb, compress cx asy (p_icomp p) (p_meta p) = Ok mb ->
+     16384 + nlen mb + nlen (fr_data (spec_finish tiles)) + 1 < two64 /\
+     (forall root0, encode_dir cx asy (p_icomp p) (fr_dir (spec_finish tiles)) = Ok root0 ->
+                    127 + nlen root0 + nlen mb + nlen (fr_data (spec_finish tiles)) + 1 < two64) /\
+     forall k blobs ptrs, leaves_spec cx (p_icomp p) (chunks k (fr_dir (spec_finish tiles))) 0 = Ok (blobs, ptrs) ->
+                          16384 + nlen mb + nlen (concat blobs) + nlen (fr_data (spec_finish tiles)) + 1 < two64) ->
+  exists img p', to_bytes cx asy p = Ok img /\ from_reader cx img full_range = Ok p' /\
+    (forall id c, In (id, c) tiles -> get_tile (p_tm p') id = Ok (Some c)) /\
+    (forall id, ~ In id (map fst tiles) -> get_tile (p_tm p') id = Ok None) /\
+    p_meta p' = p_meta p /\ p_ttype p' = p_ttype p /\ p_tcomp p' = p_tcomp p /\ p_icomp p' = p_icomp p /\
+    p_minz p' = p_minz p /\ p_maxz p' = p_maxz p /\ p_cz p' = p_cz p /\
+    p_min_lon p' = quantize_coord (p_min_lon p) /\ p_min_lat p' = quantize_coord (p_min_lat p) /\
+    p_max_lon p' = quantize_coord (p_max_lon p) /\ p_max_lat p' = quantize_coord (p_max_lat p) /\
+    p_clon p' = quantize_coord (p_clon p) /\ p_clat p' = quantize_coord (p_clat p).
+Proof.
+  intros cx Hinv Hsize asy p tiles U HI Hlog Hinj Hsmall Htiles Hcnt Hsorted Hc Hmne Hjson Hcne Z1 Z2 Z3 Hbf Hsz.
+  apply (roundtrip_total cx Hinv Hsize asy p tiles U); try assumption; try reflexivity; vm_compute; discriminate.
+Qed.
 
 Theorem C01_roundtrip_fits : forall cx, codec_inv cx -> forall asy p tiles U root,
   Inv cx (p_tm p) -> logical (p_tm p) = Ok tiles ->
@@ -69,7 +95,7 @@ Theorem C01_roundtrip_spill : forall cx, codec_inv cx -> forall asy p tiles U ro
 Proof. exact roundtrip_spill. Qed.
 
 (** both cases at once: whatever image the writer returns opens to the same content *)
-Theorem C01_roundtrip_partial : forall cx, codec_inv cx -> forall asy p tiles U root0 img,
+Theorem C01_roundtrip_any_image : forall cx, codec_inv cx -> forall asy p tiles U root0 img,
   Inv cx (p_tm p) -> logical (p_tm p) = Ok tiles ->
   hash_inj_on cx U -> (forall c, In c U -> nlen c < two32) ->
   Forall (fun t => In (snd t) U /\ fst t < two63 /\ 1 <= nlen (snd t)) tiles -> nlen tiles + 1 < two32 ->
